@@ -404,7 +404,7 @@ class ManyGen:
         if self.object_removed and op == 'copym':
             c['no_recheck'] = True
         # destinations that exist already
-        if pairs and rng.random() < 0.3:
+        if pairs and rng.random() < 0.4:
             for s_, d_ in rng.sample(pairs, rng.randint(1, min(2, len(pairs)))):
                 if d_ in obs.recs or d_ in obs.ws or d_ in cands or any(q.get('path') == d_ for q in pre):
                     continue
@@ -412,10 +412,17 @@ class ManyGen:
                     continue                                                    # the occupant would itself be selected (overlap)
                 if any(d_.startswith(p + '/') or p.startswith(d_ + '/') for p in list(obs.ws) + list(obs.recs) + [q.get('path', '') for q in pre]):
                     continue                                                    # would need a directory where a file is
+                # destination STATE: untracked file | tracked and present | tracked and ABSENT from the workspace (tracked, then
+                # deleted by the user - what `copy --no-recheck` or a fresh clone before `recheck` also leave): "tracked" is a
+                # fact of the path store, not of the workspace (seeded change C19-6: one lstat of the workspace path)
                 pre.append(W(d_, self.content('occupant ' + d_)))
-                if rng.random() < 0.5:
+                f = rng.random()
+                if f < 0.35:
                     pre.append(T([d_], no_parallel=True))
                     self.count_('many:perturb:destination-tracked')
+                elif f < 0.7:
+                    pre += [T([d_], no_parallel=True), {'op': 'delete', 'path': d_}]
+                    self.count_('many:perturb:destination-tracked-absent')
                 else:
                     self.count_('many:perturb:destination-untracked-file')
         for s_, d_ in pairs:
@@ -715,7 +722,7 @@ def run(chk):
         return ctx['xvc']
     chk.lean, chk.build_xvc = lean, build_xvc
     return rc.run_property(chk, 'C19', ORACLES, restore=RESTORE, nq=250, extra_corpus=chain_histories(chk.seed, n),
-                           extra_props=['XvcRepo.Props.C19Many'], before_finish=lambda: run_many(chk, ctx['model'], ctx['xvc']))
+                           extra_props=['XvcRepo.Props.C19Many', 'XvcRepo.Props.C19Dest'], before_finish=lambda: run_many(chk, ctx['model'], ctx['xvc']))
 
 
 def replay(chk, data):
